@@ -38,7 +38,7 @@ impl Read for SReader {
         let k = match self.script.pop_front() {
             None => buf.len().min(rem),
             Some(RdEv::Data(n)) => n.min(buf.len()).min(rem),
-            Some(RdEv::ErrOther) => return Err(io::Error::new(ErrorKind::Other, "scripted read error")),
+            Some(RdEv::ErrOther) => return Err(io::Error::new(other_kind(self.sh.nreads.get() + self.data.len()), "scripted read error")),
             Some(RdEv::ErrInterrupted) => return Err(io::Error::new(ErrorKind::Interrupted, "scripted interruption")),
         };
         buf[..k].copy_from_slice(&self.data[self.off..self.off + k]);
@@ -65,7 +65,7 @@ impl Write for SWriter {
         let m = match self.ws.pop_front() {
             None => buf.len(),
             Some(WrEv::Accept(n)) => n.min(buf.len()),
-            Some(WrEv::ErrOther) => return Err(io::Error::new(ErrorKind::Other, "scripted write error")),
+            Some(WrEv::ErrOther) => return Err(io::Error::new(other_kind(st.write_calls + st.out.len()), "scripted write error")),
             Some(WrEv::ErrInterrupted) => return Err(io::Error::new(ErrorKind::Interrupted, "scripted interruption")),
         };
         st.out.extend_from_slice(&buf[..m]);
@@ -75,7 +75,7 @@ impl Write for SWriter {
     fn flush(&mut self) -> io::Result<()> {
         match self.fs.pop_front() {
             None | Some(FlEv::Ok) => { self.st.borrow_mut().flushes += 1; Ok(()) }
-            Some(FlEv::ErrOther) => Err(io::Error::new(ErrorKind::Other, "scripted flush error")),
+            Some(FlEv::ErrOther) => Err(io::Error::new(other_kind(self.st.borrow().flushes + self.fs.len()), "scripted flush error")),
             Some(FlEv::ErrInterrupted) => Err(io::Error::new(ErrorKind::Interrupted, "scripted interruption")),
         }
     }
@@ -83,3 +83,12 @@ impl Write for SWriter {
 
 /// a read script that partitions `len` bytes into the given piece sizes (then EOF behaviour is the default)
 pub fn reads_of(parts: &[usize]) -> Vec<RdEv> { parts.iter().map(|&n| RdEv::Data(n)).collect() }
+
+/// "an error other than Interrupted": std's read_exact / write_all retry on Interrupted only, so every other kind is the same
+/// event for the model (`eo`).  The kind is a fixed function of where in the run the fault happens, so that no single kind
+/// (WouldBlock, BrokenPipe, TimedOut, …) gets special treatment unnoticed and a failing case replays exactly.
+fn other_kind(n: usize) -> ErrorKind {
+    const KINDS: [ErrorKind; 8] = [ErrorKind::Other, ErrorKind::WouldBlock, ErrorKind::BrokenPipe, ErrorKind::TimedOut, ErrorKind::ConnectionReset,
+        ErrorKind::PermissionDenied, ErrorKind::UnexpectedEof, ErrorKind::WriteZero];
+    KINDS[n % KINDS.len()]
+}
